@@ -77,7 +77,15 @@ fn judge_at(rep: &mut Rep, kind: &str, resp: &ctap2::Response, model: &Option<V>
 }
 
 fn caps_for(size: usize) -> Vec<usize> {
+    caps_for2(size, false)
+}
+
+fn caps_for2(size: usize, big: bool) -> Vec<usize> {
     let mut want: Vec<usize> = vec![1, 2, 3, 64, 256, 1024, 3072, 7609];
+    if big {
+        // capacities beyond any message (zero-filling 128 KiB per probe: sampled, not swept)
+        want.extend([8192usize, 16384, 32768, 65535, 65536, 65537, 70000, 131072]);
+    }
     for d in 0..=5usize {
         let c = (size + d).saturating_sub(2);
         want.push(c);
@@ -94,6 +102,7 @@ fn steered(kind: &str, seed: u64, case: u64, target: usize) -> Option<(ctap2::Re
     for _ in 0..8 {
         let mut rng = Rng::derive(seed, "c17-steer", case);
         let mut c = Ctl::new(&mut rng);
+            c.any_alg = true;
         c.top_mask = Some(u64::MAX);
         c.nested = Some(true);
         c.focus = Some(("packed", 1));
@@ -133,6 +142,7 @@ pub fn run(rep: &mut Rep) {
                 _ => rng.u64(),
             };
             let mut c = Ctl::new(&mut rng);
+            c.any_alg = true;
             c.top_mask = Some(if k == 0 { 0 } else { mask });
             c.small = i % 3 != 0;
             let (r, m) = gen_response(kind, &mut c);
@@ -145,7 +155,7 @@ pub fn run(rep: &mut Rep) {
             if body_len(&m) <= 1 && m.is_some() {
                 rep.count("obs/all-unset-response(body=A0)", 1);
             }
-            let caps = caps_for(size);
+            let caps = caps_for2(size, i % 16 == 5);
             rep.sample(|| format!("{} body {} bytes, capacities {:?}", kind, size - 1, caps));
             for n in caps {
                 judge_at(rep, kind, &r, &m, n);
@@ -203,6 +213,7 @@ pub fn run(rep: &mut Rep) {
         for _ in 0..50 {
             let (kind, _) = KINDS[rng.usize(KINDS.len())];
             let mut c = Ctl::new(&mut rng);
+            c.any_alg = true;
             c.small = true;
             if c.rng.chance(1, 4) {
                 c.top_mask = Some(0);
